@@ -50,6 +50,7 @@ DEFAULT_KNOBS: Dict[str, Any] = {
     "validate_params": [True, True, False],
     "p_probe": 0.0,
     "cpu": True,
+    "swarm": True,
 }
 
 EXC_NAMES = ["ValueError", "KeyError", "RuntimeError", "SimError", "ZeroDivisionError"]
@@ -169,6 +170,28 @@ def gen_worker_script(rs: int, knobs: Optional[dict] = None) -> dict:
     if knobs:
         kn.update(knobs)
     rc = stream(rs, "config")
+    # swarm: half of the runs switch a random subset of fault / workload kinds off and boost another subset,
+    # so that rare combinations are not always drowned by the common ones
+    rsw = stream(rs, "swarm")
+    if kn.get("swarm", True) and rsw.random() < 0.5:
+        for key in ("p_malformed", "p_unknown", "p_dup", "p_kick_delay", "p_save_fail", "p_save_delay", "p_ack_delay", "p_hook_raise",
+                    "p_timeout", "p_sync", "p_never", "p_dep_fail"):
+            if kn.get(key):
+                x = rsw.random()
+                if x < 0.3:
+                    kn[key] = 0.0
+                elif x < 0.5:
+                    kn[key] = min(0.9, kn[key] * 3)
+        oc = dict(kn["outcomes"])
+        for name in list(oc):
+            if oc[name] and name != "ret" and rsw.random() < 0.3:
+                oc[name] = 0
+        kn["outcomes"] = oc
+        dw = dict(kn["durations"])
+        boost = rsw.choice(list(dw))
+        if dw[boost]:
+            dw[boost] *= 4
+        kn["durations"] = dw
     faults = rc.random() < kn["p_faults"]
     cfg: Dict[str, Any] = {
         "workers": rc.choice(kn["workers"]),
